@@ -73,7 +73,22 @@ func init() {
 		Note:      trusted,
 		DesignRef: "DESIGN.md §3 PS-1, §4 C17",
 	})
-	for _, id := range []string{"C01", "C02", "C03", "C04", "C08", "C09", "C10", "C11", "C12", "C15", "C16", "C18", "C19"} {
+	property(&Property{
+		ID:    "C19",
+		Rules: []string{"OM-model", "OM-lock"},
+		Explain: "Every type with the generated ordered-map shape (found structurally: data map, order slice, mx RWMutex; three today) is checked against a reference insertion-ordered map written from the property text. The methods' SSA is interpreted abstractly on every reachable implementation state over a universe of three keys and two values (keys are only compared for equality, values only copied, so this is every distinguishable case of one operation); callbacks are opaque functions whose verdicts are forked atoms. For each state x method x argument x callback valuation: return value, exact sequence of callback invocations (every entry exactly once, in insertion order), and the successor state (order duplicate-free, same key set as data, equal to the reference's) must agree; since every operation from every reachable state agrees including the successor state, every operation sequence agrees by induction. OM-lock: in every interpreted run m.mx is held around each access to data/order (write lock when the state changes) and released on every exit.",
+		Assume: []string{
+			"MarshalJSON: the iteration order and the values passed to json.Marshal are compared, not the produced bytes",
+			"callbacks that re-enter the map (they run under the lock) are outside the model",
+			"absence of data races follows from the lock discipline only for accesses through the methods; sync.RWMutex is trusted",
+			"slice capacity growth is modelled as doubling; aliasing inside one method is tracked exactly",
+		},
+		Technique: "static analysis: finite-domain abstract interpretation of go/ssa (three keys, two values, opaque callbacks) compared with a reference ordered map; inductive over all reachable states",
+		Level:     "Exhaustive comparison, on a data-independent finite universe, of every method of every generated ordered map with a reference model; inductive argument over operation sequences. Decides the sequential half of the property for all sequences; the race-freedom half through lock discipline only.",
+		Note:      trusted,
+		DesignRef: "DESIGN.md §3 OM, §4 C19",
+	})
+	for _, id := range []string{"C01", "C02", "C03", "C04", "C08", "C09", "C10", "C11", "C12", "C15", "C16", "C18"} {
 		NotApplicable[id] = "engine for this property's structural clauses not finished yet (see DESIGN.md §4); not claimed until its rules run"
 	}
 	NotApplicable["C14"] = "an arithmetic relation between a returned length and acceptance of a prefix over all inputs; no clause has a structural form that is a genuine necessary condition and survives behaviour-preserving edits (DESIGN.md §4 C14)"
